@@ -44,6 +44,18 @@ the samples that went in.  Clause ids:
   C13.arith.bitshift_fixup       the decoder's module-level bit-shift / mu-law fix-up helper (when importable) maps every
                                  representable internal value back to the sample (PCM: << shift; mu-law: code of the rank)
 
+"for all ... block sizes ... and every block command (DIFF0-3, QLPC of any order in blocks no shorter than the predictor
+history, ZERO, BLOCKSIZE, ...)", over "all command sequences a conforming encoder may emit (... block size ... per
+block)": the decoder carries the last max(maxnlpc, 3) samples of a channel from block to block, so what a block decodes
+to depends on the commands and SIZES of the blocks before it - in particular on blocks shorter than that history, after
+which the history is part old, part new.  The round trips therefore start with forced command sequences (the encoder's
+`script` setting; see _seq_cases): every ordered pair of commands from {DIFF0-3, QLPC, ZERO} as (short, full), (full,
+short) and (short, short) consecutive blocks, the short block 1, 2, 3, history-1, history or history+1 samples long,
+for maximum LPC orders 0, 1, 2, 3 and 8, on non-zero samples (so that the history entering every short block is
+non-zero) and closed by a DIFF3 / QLPC block that reaches back past the last short block; and the random streams are
+complemented by "short-block" ones (_tiny_case: per-block sizes of 1..4 samples mixed with full blocks, signals with
+zero runs of 1..6 samples so that ZERO is a frequent choice for a short block).
+
 "for all ... block sizes (including a shorter final block), running-mean lengths": the running mean is, by the format,
 an exact integer quotient truncated toward zero with the BLOCK LENGTH resp. the MEAN LENGTH as divisor.  The grid of
 round trips therefore starts with block sizes and mean lengths that are not powers of two - among them the divisors d
@@ -869,11 +881,17 @@ def _check_roundtrip(case, tmpdir, stats=None):
                 bad = np.argwhere(out.astype(np.float64) != exp.astype(np.float64))
                 if len(bad):
                     row, pos = int(bad[0][0]), 0
+                    chan = int(bad[0][1]) if len(bad[0]) > 1 else 0
+                    follows = s.get("script_chans") is None or chan in s["script_chans"]
                     for b, e in enumerate(s["script"]):
                         if row < pos + e[0]:
-                            msg += " (sample %d of block %d, %s[%d]%s)" % (
-                                row - pos, b, CMD_NAMES[e[1]], e[0],
-                                "" if b == 0 else ", the block after %s[%d]" % (CMD_NAMES[s["script"][b - 1][1]], s["script"][b - 1][0]))
+                            if follows:
+                                msg += " (sample %d of block %d, %s[%d]%s)" % (
+                                    row - pos, b, CMD_NAMES[e[1]], e[0],
+                                    "" if b == 0 else ", the block after %s[%d]" % (CMD_NAMES[s["script"][b - 1][1]], s["script"][b - 1][0]))
+                            else:
+                                msg += " (sample %d of block %d [%d samples] of a channel whose commands the encoder chose freely)" % (
+                                    row - pos, b, e[0])
                             break
                         pos += e[0]
             try:
@@ -1399,7 +1417,9 @@ def run(tier: str, seed: int) -> dict:
         col.note(
             "not covered: ftype 7 (lossy TYPE_ULAW; the decoder returns its internal linear values), ftypes 1/2/4/6 "
             "(not SPHERE types), nskip > 0, mu-law bit shifts > 7, QLPC in blocks shorter than max(maxnlpc, 3), "
-            "streams cut inside the 4-byte magic (then not recognisable as shorten)"
+            "streams cut inside the 4-byte magic (then not recognisable as shorten), block sizes above the header block "
+            "size (no conforming encoder emits them); forced sequences hold at most two consecutive short blocks (longer "
+            "chains of short blocks only in the random short-block streams)"
         )
     finally:
         _restore_memory(old_limit)
@@ -1411,12 +1431,16 @@ def run(tier: str, seed: int) -> dict:
         "over its whole stated grid of dividends (internal values)",
         bound="BOUNDED: %s tier, seed %d: six sph2pipe vectors; %d-stream target of random encoder output (channels 1-3, "
         "<= %d samples/channel, block sizes 1..256, nmean 0..4, LPC order <= 8, bit shift <= 12 (mu-law <= 7), versions "
-        "1-2, types S16HL/S16LH/AU1/AU2), preceded by a deterministic grid that includes every block size <= 256 that "
+        "1-2, types S16HL/S16LH/AU1/AU2) plus %d short-block random streams (header block size 4..16, per-block sizes 1..4 "
+        "mixed with full blocks, zero runs of 1..6 samples), preceded by %d forced command sequences DIFF1[L] A[k] B[L] A[k] "
+        "B[k2] C[L] (A, B each of DIFF0-3/QLPC/ZERO, k in {1,2,3,history-1,history,history+1}, k2 in {1,2}, maximum LPC order "
+        "in {0,1,2,3,8}, QLPC only in blocks >= history; longer chains of short blocks only at random) and "
+        "by a deterministic grid that includes every block size <= 256 that "
         "floating point cannot invert (%s) and 3,5,7,10,12,100,255 with nmean 1..4, and mean lengths %s with block sizes "
         "3..5, on signals whose block sums lie on / next to exact multiples of the divisor, DIFF0/QLPC only; the decoder's "
         "division helper on divisors 1..%d x (|quotient| <= %d, +-2^e, +-(2^e-1), 200+ seeded 16-bit quotients) x remainders "
         "{0,+-1,+-b//2}; truncations, unknown commands, version bytes and ftypes as enumerated"
-        % (tier, seed, N_QUICK if quick else N_THOROUGH, 3400, _hazard_divisors(), _hazard_divisors()[:3] + [5, 6, 7, 12],
+        % (tier, seed, N_QUICK if quick else N_THOROUGH, 3400, n_tiny, n_seq, _hazard_divisors(), _hazard_divisors()[:3] + [5, 6, 7, 12],
            256 if quick else 1024, DIV_KSMALL),
         assumptions=ASSUMPTIONS,
     )
